@@ -1,7 +1,7 @@
 """Mechanical extraction of the real tz-rs functions into one Verus file.
 
 See DESIGN.md section 2.1.  Everything copied from /repo/src is token-for-token the source text,
-except for the rewrite rules R1..R7, each of which is counted and reported.  Everything that is
+except for the rewrite rules R1..R12, each of which is counted and reported.  Everything that is
 *added* (contracts, loop invariants, ghost blocks) is wrapped in /*@<*/ ... /*@>*/ markers so that
 the fidelity self-check can strip it again and compare with the source.
 """
